@@ -8,12 +8,16 @@ import Driver.StoreEngine
 import Driver.OrderEngine
 import Driver.PermEngine
 import Driver.MsigEngine
+import Driver.StratEngine
+import Driver.GovStepEngine
 
 def main (args : List String) : IO UInt32 := do
   let stdin ← IO.getStdin
   let stdout ← IO.getStdout
   match args with
   | ["sync"] => Driver.loop stdin stdout Driver.SyncEngine.step (); return 0
+  | ["govstep"] => Driver.loop stdin stdout Driver.GovStepEngine.step (); return 0
+  | ["strat"] => Driver.loop stdin stdout Driver.StratEngine.step (); return 0
   | ["msig"] => Driver.loop stdin stdout Driver.MsigEngine.step (); return 0
   | ["perm"] => Driver.loop stdin stdout Driver.PermEngine.step (); return 0
   | ["order"] => Driver.loop stdin stdout Driver.OrderEngine.step {}; return 0
